@@ -587,6 +587,19 @@ def run_case(case, want_rows=True, alias='default', batch=True):
         res['rejected'] = 'ref_invalid:%s' % str(e)[:40]
         return res
     res['final_spec'] = final
+    # data must let a legal evolution succeed (DESIGN 3.3): values of a column that is
+    # unique at any point must be distinct (the shrinker may otherwise simplify a field
+    # into one that holds duplicates)
+    uniq = ever_unique_uids([spec] + trail)
+    for _muid, rws in (case.get('rows') or {}).items():
+        seen = {}
+        for r in rws:
+            for k, v in r.items():
+                if k in uniq and v is not None:
+                    if v in seen.setdefault(k, set()):
+                        res['rejected'] = 'rows_invalid:duplicate value in a unique column'
+                        return res
+                    seen[k].add(v)
     model_map, sig = inproc.start_case(spec, alias)
     ex = dbnorm.django_exec(alias)
     rows = case.get('rows') or {}
